@@ -10,6 +10,7 @@ ASSUMPTIONS = ['a registered ServiceInfo has a server name (set_server_if_missin
 def build(R):
     records.install(R)
     registry_model.install(R)
+    registry_model.install_getters(R)
 
 
 def configure(ctx, R):
